@@ -27,7 +27,7 @@
              # X <closed form seqResult> # H <heap after the schedule> # D=<disciplined> C=<complete>"
 
   gate-level measurement result (QV/Model/GateBinding.lean):
-    G <rebind 0|1> <addRepoints 0|1> <nops> op…     op: P plain execution | Q execution with a
+    G <rebind 0|1> <addRepoints 0|1> <nops> op…   (rebind 2|3 = 0|1 without the reset)     op: P plain execution | Q execution with a
         Circuit as initial state | M m.samples() | R e  results[e].samples()
     answer: "C e" | "r e" (rows of execution e) | "raises" | "none" | "X", separated by " | "
 -/
@@ -201,7 +201,9 @@ def parLine (t : String) : P String := do
       pure (parAnswer [{ params := ps }] (parParametrizedShared ng slots sets input) sched)
 
 def gbAnswer : P String := do
-  let rb ← nextBool
+  let rbn ← nextNat
+  let rb := rbn % 2 == 1
+  let rs := rbn < 2
   let ar ← nextBool
   let n ← nextNat
   let mut ops : List QV.GB.Op := []
@@ -212,7 +214,7 @@ def gbAnswer : P String := do
     | "Q" => ops := .prep :: ops
     | "M" => ops := .readGate :: ops
     | _ => ops := .readRes (← nextNat) :: ops
-  let out := QV.GB.run { rebind := rb, addRepoints := ar } ops.reverse
+  let out := QV.GB.run { rebind := rb, addRepoints := ar, resets := rs } ops.reverse
   pure (" | ".intercalate (out.map fun a =>
     match a with
     | .created e => "C " ++ toString e
